@@ -289,6 +289,8 @@ class Interp:
                 return args[0] if args[0] is not None else 0
             if cls.startswith('std::function'):
                 return 0
+            if cls.startswith('std::chrono::'):
+                return args[0] if args and isinstance(args[0], int) else 0
             if len(args) == 1:
                 return args[0]
             if not args and cls and 'std::' not in cls:
@@ -406,6 +408,29 @@ class Interp:
             if (self.is_callable(a_) or a_ in (0, None)) and (self.is_callable(b_) or b_ in (0, None)):
                 eq = (a_ in (0, None)) == (b_ in (0, None)) and (a_ in (0, None) or a_ is b_)
                 return int(eq if name == 'operator==' else not eq)
+        callee = st.get('callee') or ''
+        if callee.startswith('std::chrono::') or cls_.startswith('std::chrono::'):
+            # durations and time points are plain numbers (ticks of the model clock)
+            ops = ([objv] if 'obj' in st else []) + list(args)
+            if name == 'operator=' and 'obj' in st:
+                self.write(f, st, self.lv(f, st['obj'], env), args[0] if args else 0, env)
+                return args[0] if args else 0
+            if name in ('operator+=', 'operator-=') and 'obj' in st and isinstance(objv, int) and args and isinstance(args[0], int):
+                v = objv + args[0] if name == 'operator+=' else objv - args[0]
+                self.write(f, st, self.lv(f, st['obj'], env), v, env)
+                return v
+            if name.startswith('operator') and len(ops) == 2:
+                if not (isinstance(ops[0], int) and isinstance(ops[1], int)):
+                    return None
+                return self.arith(f, st, name[len('operator'):], ops[0], ops[1])
+            if name in ('duration_cast', 'time_point_cast', 'floor', 'ceil', 'round'):
+                return args[0] if args else None
+            if name in ('count', 'time_since_epoch'):
+                return objv
+            if name == 'zero':
+                return 0
+            if name in ('max', 'min') and not args:
+                return (1 << 62) if name == 'max' else -(1 << 62)
         tg = [g for g in self.prog.by_usr.get(st.get('usr'), ()) if not g.parent_usr and g.body is not None]
         if st.get('virt') and not st.get('qualified') and (name in self.inline or '*' in self.inline):
             this_ = self.record_of(objv) if objv is not None else self.this
